@@ -20,7 +20,7 @@ use std::process::{Command, Stdio};
 use std::sync::atomic::{AtomicUsize, Ordering};
 use std::sync::{Arc, Mutex};
 
-pub const FAMILIES: [&str; 36] = [
+pub const FAMILIES: [&str; 39] = [
     "block-literal-lines",
     "block-folded-long-lines",
     "block-wide-indent",
@@ -58,6 +58,9 @@ pub const FAMILIES: [&str; 36] = [
     "aliases-in-every-document",
     "anchored-map-values",
     "documents-of-flow-collections",
+    "sibling-sequence-keys",
+    "sibling-mapping-keys",
+    "sibling-long-scalar-keys",
 ];
 pub const APIS: [&str; 4] = ["iter-str", "iter-buffered", "load-yaml", "load-marked"];
 pub const RATIO_LIMIT: f64 = 6.0;
@@ -301,6 +304,24 @@ pub fn render(family: &str, bytes: usize) -> String {
         "documents-of-flow-collections" => {
             while s.len() < bytes {
                 s.push_str("--- {a: [1, 2, {b: c}], d: \"e\"}\n");
+            }
+        }
+        "sibling-sequence-keys" => {
+            while s.len() < bytes {
+                s.push_str(&format!("[{}, {}]: v\n", k / 100, k % 100));
+                k += 1;
+            }
+        }
+        "sibling-mapping-keys" => {
+            while s.len() < bytes {
+                s.push_str(&format!("{{a: {k}}}: v\n"));
+                k += 1;
+            }
+        }
+        "sibling-long-scalar-keys" => {
+            while s.len() < bytes {
+                s.push_str(&format!("a-rather-long-common-prefix-of-a-key-{k:08}: v\n"));
+                k += 1;
             }
         }
         "reserved-directives" => {
